@@ -18,9 +18,11 @@ if TYPE_CHECKING:
 try:
     from execnet.gateway_base import Message
     from execnet.gateway_base import Popen2IO
+    from execnet.gateway_base import RemoteError
 except ImportError:
     from __main__ import Message  # type: ignore[no-redef]
     from __main__ import Popen2IO  # type: ignore[no-redef]
+    from __main__ import RemoteError  # type: ignore[no-redef]
 
 from functools import partial
 
@@ -156,7 +158,12 @@ class ProxyIO:
     def read(self, nbytes: int) -> bytes:
         # TODO(typing): The IO protocol requires bytes here but ChannelFileRead
         # returns str.
-        return self.iochan_file.read(nbytes)  # type: ignore[return-value]
+        try:
+            return self.iochan_file.read(nbytes)  # type: ignore[return-value]
+        except RemoteError as e:
+            # the forwarder gave up on the sub (e.g. it could not write to
+            # it anymore): for this gateway that is a lost connection
+            raise EOFError(f"connection to the proxied process lost: {e}") from e
 
     def write(self, data: bytes) -> None:
         self.iochan.send(data)
